@@ -1,7 +1,8 @@
 (* Extraction of the executable codec model (ExtrOcamlBasic only; numbers stay inductive). *)
 From Coq Require Extraction ExtrOcamlBasic.
-From FlacCodec Require Import Stream StreamRd Write Spec Inverse_frame.
+From FlacCodec Require Import Stream StreamRd Write Spec Inverse_frame Enc.
 Extraction Language OCaml.
 Extraction "codec_model.ml" dec_stream dec_subset_frames struct_frame sem_frame write_frame
   parse_streaminfo read_metadata_min dec_frame interleave_frame
-  wf_frame spec_frame spec_decode spec_stream frame_canonical stream_read_all write_subframe subframe_bps.
+  wf_frame spec_frame spec_decode spec_stream frame_canonical stream_read_all write_subframe subframe_bps
+  enc_frame enc_frame_bytes enc_sub enc_fixed enc_lpc enc_residual.
